@@ -72,7 +72,9 @@ Shape(t, vc) ==
          THEN << "arr:" \o ArrayTypeOf(t.e.k) >>
          ELSE << "list" >> \o Repeat(Shape(t.e, "one"), Count(vc)) \o << "end" >>
     [] t.k = "map" ->
-         << "map" >> \o Repeat(Shape(t.key, "one") \o Shape(t.e, "one"), Count(vc)) \o << "end" >>
+         (* a map with boolean keys has at most two entries *)
+         LET n == IF t.key.k = "bool" /\ Count(vc) > 2 THEN 2 ELSE Count(vc) IN
+         << "map" >> \o Repeat(Shape(t.key, "one") \o Shape(t.e, "one"), n) \o << "end" >>
     [] t.k = "ptr" -> IF vc = "nil" THEN << "null" >> ELSE Shape(t.e, vc)
     [] t.k = "struct" ->
          LET RECURSIVE F(_)
